@@ -63,8 +63,9 @@ def random_sl(rng, kind, cap, n):
     lines = ["R %s %d" % (kind, cap)]
     for _ in range(n):
         r = rng.random()
-        if r < 0.25: lines.append("SlPut %d" % rng.choice([97, 98, 0, 255]))
-        elif r < 0.45: lines.append("SlNew %s" % (",".join(str(rng.randrange(1, 256)) for _ in range(rng.randrange(0, cap + 3))) or "-"))
+        # the line buffer is also used as a raw byte buffer (gstuff receiver): control bytes are ordinary contents for it
+        if r < 0.25: lines.append("SlPut %d" % rng.choice([97, 98, 0, 255, 13, 10, 8, 127, 27]))
+        elif r < 0.45: lines.append("SlNew %s" % (",".join(str(rng.choice([13, 10, 13, 10, 8, 27, 127, 0, 97]) if rng.random() < 0.4 else rng.randrange(1, 256)) for _ in range(rng.randrange(0, cap + 3))) or "-"))
         elif r < 0.55: lines.append("SlBs %d" % rng.randrange(0, cap + 2))
         elif r < 0.65: lines.append("SlDel %d" % rng.randrange(0, cap + 2))
         elif r < 0.75: lines.append("SlLeft")
@@ -104,6 +105,11 @@ def check(ctx):
     for i, (cap, depth) in enumerate([(1024, 80), (300, 250), (6, 255), (6, 256), (6, 257)] + ([(4096, 20), (70, 1000), (8, 512), (7, 300)] if ctx.thorough else [])):
         rnd += big_history(ctx.rng, ["c", "xx"][i % 2], cap, depth)
         rnd += big_history(ctx.rng, ["xx", "c"][i % 2], cap, depth)
+    # the cursor-left sequence for every magnitude of the column count (lines longer than 2^8 / 2^15 / 2^16 columns: the terminals
+    # themselves are only driven to 4096 columns, the judge being linear in the line length per key)
+    rnd.append("R sl 4")
+    for nn in list(range(0, 13)) + [99, 100, 255, 256, 999, 1000, 9999, 10000, 32767, 32768, 65535, 65536, 65537, 70000, 99999, 100000, 131072, 2 ** 24 + 1, 2 ** 31 - 1] + [ctx.rng.randrange(0, 2 ** 31) for _ in range(30)]:
+        rnd.append("VtLeft %d" % nn)
     t1 = ctx.drive(drv, script, "term_cover")
     t2 = ctx.drive(drv, rnd, "term_random")
     bad = ctx.judge("LineEditTrace", [t1, t2])
@@ -128,6 +134,7 @@ def replay(ctx, path):
         elif n == "SlPut": lines.append("SlPut %d" % e["c"])
         elif n == "SlNew": lines.append("SlNew %s" % (",".join(map(str, e["s"])) or "-"))
         elif n in ("SlBs", "SlDel"): lines.append("%s %d" % (n, e["n"]))
+        elif n == "VtLeft": lines.append("VtLeft %d" % e["n"])
         elif n != "Fault": lines.append(n)
     t = ctx.drive(drv, lines + core.fault_line(d), "replay")
     ctx.report(ctx.judge("LineEditTrace", [t]))
